@@ -1,6 +1,7 @@
 import PyCraft.Model.C18Keys
 import PyCraft.Lemmas.LoginWire
 import PyCraft.Lemmas.Cfb8
+import PyCraft.Generated.C18Keys
 /-!
 Helper lemmas for `Props/C18Keys.lean`.
 
@@ -943,5 +944,526 @@ theorem One.exec {P : KeyParams} {n0 : Nat} {evs : List LoginEv} {s : KState}
 theorem one_execK (P : KeyParams) (n0 : Nat) (steps : List Step) :
     One P n0 (events steps) (execK P (.init n0) steps) := by
   simpa using (One.init P n0).exec steps
+
+/-! ## 7. a request in the middle of a run; several logins -/
+
+theorem execK_mid (P : KeyParams) (s : KState) (pre post : List Step) (e : LoginEv)
+    (h : s.alive = true) (hpre : ∀ e ∈ events pre, e.isTerminal = false) :
+    execK P s (pre ++ .recv e :: post) = execK P (reactK P (execK P s pre) e) post := by
+  show execWith genUrandom KChan.create P s (pre ++ .recv e :: post) = _
+  rw [execWith_append, execWith_cons,
+    stepWith_recv_alive genUrandom KChan.create P _ e (execK_alive P s pre h hpre)]
+
+theorem range'_map_snoc (f : Nat → Bytes) (n k : Nat) :
+    (List.range' n k).map f ++ [f (n + k)] = (List.range' n (k + 1)).map f := by
+  rw [List.range'_concat]; simp
+
+/-- The `k`-th reached request of a login uses draw number `n0 + k` — in the reply, in the `join`
+hash and as the `k`-th installed key — and nothing written afterwards removes any of it. -/
+theorem fresh_at_request (P : KeyParams) (n0 : Nat) (pre post : List Step) (sid : String)
+    (pk tok : Bytes) (hpre : ∀ e ∈ events pre, e.isTerminal = false) :
+    (execK P (.init n0) pre).nDraws = n0 + (reqs (events pre)).length ∧
+    (∃ later, (execK P (.init n0) (pre ++ .recv (.encRequest sid pk tok) :: post)).log =
+      (execK P (.init n0) pre).log ++
+        ⟨replyOf P (P.rng.draw (n0 + (reqs (events pre)).length)) pk tok,
+          !(execK P (.init n0) pre).layers.isEmpty, (execK P (.init n0) pre).threshold, true⟩ ::
+          later) ∧
+    (∃ later, (execK P (.init n0) (pre ++ .recv (.encRequest sid pk tok) :: post)).joins =
+      (execK P (.init n0) pre).joins ++
+        joinOf P (P.rng.draw (n0 + (reqs (events pre)).length)) sid pk ++ later) ∧
+    (∃ later, (execK P (.init n0) (pre ++ .recv (.encRequest sid pk tok) :: post)).keys =
+      (List.range' n0 ((reqs (events pre)).length + 1)).map P.rng.draw ++ later) := by
+  obtain ⟨hn, hk⟩ := keys_execK P n0 pre
+  rw [processed_of_live _ hpre] at hn hk
+  rw [execK_mid P _ pre post _ (init_alive n0) hpre]
+  have hg := Grows.exec genUrandom KChan.create P
+    (reactK P (execK P (.init n0) pre) (.encRequest sid pk tok)) post
+  obtain ⟨⟨l, hl⟩, ⟨j, hj⟩, ⟨ks, hks⟩, _⟩ := hg
+  have hkr := keys_reactK P (execK P (.init n0) pre) (.encRequest sid pk tok)
+  simp only [drawUpd, Prod.mk.injEq] at hkr
+  refine ⟨hn, ⟨l, ?_⟩, ⟨j, ?_⟩, ⟨ks, ?_⟩⟩
+  · show (execWith genUrandom KChan.create P _ post).log = _
+    rw [hl, reactK_encRequest, hn]; simp
+  · show (execWith genUrandom KChan.create P _ post).joins = _
+    rw [hj, reactK_encRequest, hn]
+  · show (execWith genUrandom KChan.create P _ post).keys = _
+    rw [hks, hkr.2, hk, hn, range'_map_snoc]
+
+/-- The run after an encryption request, factored through the layers in place right after it
+(`Fac.exec` from `Fac.start`). -/
+theorem factor_after (gen : SecretGen) (mk : Bytes → Except Err KChan) (P : KeyParams)
+    (s : KState) (hl : s.layers ≠ []) (steps : List Step) :
+    (execWith gen mk P s steps).wire =
+        s.wire ++ (updates stackSend s.layers
+          (execWith gen mk P { s with layers := [], wire := [], log := [] } steps).wire).2 ∧
+      (execWith gen mk P s steps).log =
+        s.log ++ (execWith gen mk P { s with layers := [], wire := [], log := [] } steps).log.map
+          flagged ∧
+      (execWith gen mk P s steps).layers =
+        (execWith gen mk P { s with layers := [], wire := [], log := [] } steps).layers ++
+          (updates stackSend s.layers
+            (execWith gen mk P { s with layers := [], wire := [], log := [] } steps).wire).1 := by
+  have h := (Fac.start s).exec gen mk P hl steps
+  exact ⟨h.wire, h.log, h.layers⟩
+
+theorem bare_start (P : KeyParams) (s : KState) :
+    Bare P { s with layers := [], wire := [], log := [] } :=
+  ⟨rfl, rfl, by intro f hf; cases hf⟩
+
+/-! ### several logins -/
+
+theorem drawIdxs_ge (n : Nat) (l : List (Nat × Nat)) : ∀ i ∈ drawIdxs n l, n ≤ i := by
+  induction l generalizing n with
+  | nil => intro i hi; cases hi
+  | cons x rest ih =>
+    obtain ⟨gap, k⟩ := x
+    intro i hi
+    simp only [drawIdxs, List.mem_append, List.mem_range'_1] at hi
+    rcases hi with hi | hi
+    · omega
+    · have := ih _ i hi; omega
+
+theorem drawIdxs_pairwise (n : Nat) (l : List (Nat × Nat)) : (drawIdxs n l).Pairwise (· < ·) := by
+  induction l generalizing n with
+  | nil => exact List.Pairwise.nil
+  | cons x rest ih =>
+    obtain ⟨gap, k⟩ := x
+    simp only [drawIdxs]
+    rw [List.pairwise_append]
+    refine ⟨List.pairwise_lt_range', ih _, ?_⟩
+    intro a ha b hb
+    have := drawIdxs_ge _ _ b hb
+    simp only [List.mem_range'_1] at ha
+    omega
+
+/-- All keys installed by a sequence of logins, in order, are the draws with the indices
+`drawIdxs`. -/
+theorem logins_keys (P : KeyParams) (n : Nat) (runs : List (Nat × List Step)) :
+    (logins P n runs).flatMap KState.keys =
+      (drawIdxs n (runs.map fun r => (r.1, (reqs (processed (events r.2))).length))).map
+        P.rng.draw := by
+  induction runs generalizing n with
+  | nil => rfl
+  | cons r rest ih =>
+    obtain ⟨gap, steps⟩ := r
+    obtain ⟨hn, hk⟩ := keys_execK P (n + gap) steps
+    show (execK P (.init (n + gap)) steps).keys ++
+      (logins P (execK P (.init (n + gap)) steps).nDraws rest).flatMap KState.keys = _
+    rw [hn, ih, hk]
+    simp [drawIdxs]
+
+/-! ## 8. RSAES-PKCS1-v1_5 -/
+
+theorem snoc_induction {α : Type} {p : List α → Prop} (h0 : p [])
+    (h1 : ∀ l a, p l → p (l ++ [a])) : ∀ l, p l := by
+  intro l
+  have : ∀ r : List α, p r.reverse := by
+    intro r
+    induction r with
+    | nil => exact h0
+    | cons a r ih => rw [List.reverse_cons]; exact h1 _ _ ih
+  simpa using this l.reverse
+
+theorem os2ip_snoc (bs : Bytes) (b : UInt8) : os2ip (bs ++ [b]) = 256 * os2ip bs + b.toNat := by
+  simp [os2ip, List.foldl_append]
+
+theorem os2ip_zero_cons (r : Bytes) : os2ip (0 :: r) = os2ip r := by
+  simp [os2ip]
+
+theorem toBE_length (x k : Nat) : (toBE x k).length = k := by
+  induction k generalizing x with
+  | zero => rfl
+  | succ k ih => simp [toBE, ih]
+
+theorem os2ip_lt (bs : Bytes) : os2ip bs < 256 ^ bs.length := by
+  induction bs using snoc_induction with
+  | h0 => simp [os2ip]
+  | h1 bs b ih =>
+    have hb : b.toNat < 256 := b.toNat_lt
+    rw [os2ip_snoc, List.length_append, List.length_singleton, Nat.pow_succ]
+    omega
+
+theorem toBE_os2ip (bs : Bytes) : toBE (os2ip bs) bs.length = bs := by
+  induction bs using snoc_induction with
+  | h0 => rfl
+  | h1 bs b ih =>
+    have hb : b.toNat < 256 := b.toNat_lt
+    rw [os2ip_snoc, List.length_append, List.length_singleton]
+    have h1 : (256 * os2ip bs + b.toNat) / 256 = os2ip bs := by omega
+    have h2 : (256 * os2ip bs + b.toNat) % 256 = b.toNat := by omega
+    simp only [toBE, h1, h2, ih, UInt8.ofNat_toNat]
+
+theorem os2ip_toBE (x k : Nat) (h : x < 256 ^ k) : os2ip (toBE x k) = x := by
+  induction k generalizing x with
+  | zero => simp at h; simp [toBE, os2ip, h]
+  | succ k ih =>
+    have hd : x / 256 < 256 ^ k := by
+      rw [Nat.pow_succ] at h
+      exact Nat.div_lt_of_lt_mul (by rw [Nat.mul_comm]; exact h)
+    simp only [toBE, os2ip_snoc, ih _ hd, UInt8.toNat_ofNat']
+    omega
+
+theorem dropWhile_ps (ps m : Bytes) (h : ∀ b ∈ ps, b ≠ 0) :
+    (ps ++ 0 :: m).dropWhile (· ≠ 0) = 0 :: m ∧ (ps ++ 0 :: m).takeWhile (· ≠ 0) = ps := by
+  induction ps with
+  | nil => simp
+  | cons a r ih =>
+    have ha : a ≠ 0 := h a (by simp)
+    obtain ⟨i1, i2⟩ := ih fun b hb => h b (by simp [hb])
+    have hpa : decide (a ≠ 0) = true := by simp [ha]
+    simp only [List.cons_append, List.dropWhile_cons, List.takeWhile_cons, hpa, if_true, i1, i2,
+      and_self]
+
+theorem emeDecode_encode (k : Nat) (ps m : Bytes) (hps : PsOK k ps m) (hm : m.length + 11 ≤ k) :
+    emeEncode k ps m = .ok ([0x00, 0x02] ++ ps ++ [0x00] ++ m) ∧
+      ([0x00, 0x02] ++ ps ++ [0x00] ++ m : Bytes).length = k ∧
+      emeDecode ([0x00, 0x02] ++ ps ++ [0x00] ++ m) = .ok m := by
+  obtain ⟨hl, hnz⟩ := hps
+  obtain ⟨d1, d2⟩ := dropWhile_ps ps m hnz
+  refine ⟨by simp [emeEncode, hm], by simp [List.length_append]; omega, ?_⟩
+  have h8 : 8 ≤ ps.length := by omega
+  simp only [List.cons_append, List.nil_append, List.append_assoc, emeDecode, d1, d2, h8, and_self,
+    if_true]
+
+/-- The law `Model/Login.lean` assumes of RSA, derived: whatever (lawful) padding string the
+library draws, the holder of the private key gets the message back exactly; the ciphertext has the
+length of the modulus. -/
+theorem rsaes_dec_enc (T : Trapdoor) (ps m : Bytes) (hps : PsOK T.k ps m)
+    (hm : m.length + 11 ≤ T.k) :
+    ∃ c, rsaesEncrypt T ps m = .ok c ∧ c.length = T.k ∧ rsaesDecrypt T c = .ok m := by
+  obtain ⟨e1, e2, e3⟩ := emeDecode_encode T.k ps m hps hm
+  have hx : os2ip ([0x00, 0x02] ++ ps ++ [0x00] ++ m : Bytes) < T.n := by
+    have h0 : ([0x00, 0x02] ++ ps ++ [0x00] ++ m : Bytes) = 0 :: ([0x02] ++ ps ++ [0x00] ++ m) := rfl
+    rw [h0, os2ip_zero_cons]
+    have hlen : ([0x02] ++ ps ++ [0x00] ++ m : Bytes).length = T.k - 1 := by
+      rw [h0] at e2; simp only [List.length_cons] at e2; omega
+    have := os2ip_lt ([0x02] ++ ps ++ [0x00] ++ m : Bytes)
+    rw [hlen] at this
+    exact Nat.lt_of_lt_of_le this T.n_lo
+  have hf := T.f_lt _ hx
+  have hfk : T.f (os2ip ([0x00, 0x02] ++ ps ++ [0x00] ++ m : Bytes)) < 256 ^ T.k :=
+    Nat.lt_trans hf T.n_hi
+  refine ⟨toBE (T.f (os2ip ([0x00, 0x02] ++ ps ++ [0x00] ++ m : Bytes))) T.k, ?_, toBE_length _ _, ?_⟩
+  · simp only [rsaesEncrypt, e1, hx, if_true, i2osp, hfk]
+  · have hk : 11 ≤ T.k := by omega
+    have hxk : os2ip ([0x00, 0x02] ++ ps ++ [0x00] ++ m : Bytes) < 256 ^ T.k :=
+      Nat.lt_trans hx T.n_hi
+    simp only [rsaesDecrypt, toBE_length, hk, and_self, if_true, os2ip_toBE _ _ hfk, hf, T.inv _ hx,
+      i2osp, hxk]
+    have := toBE_os2ip ([0x00, 0x02] ++ ps ++ [0x00] ++ m : Bytes)
+    rw [e2] at this
+    rw [this, e3]
+
+theorem rsaes_too_long (T : Trapdoor) (ps m : Bytes) (h : T.k < m.length + 11) :
+    rsaesEncrypt T ps m = .error .value := by
+  have : ¬ m.length + 11 ≤ T.k := by omega
+  simp [rsaesEncrypt, emeEncode, this]
+
+/-! ## 9. final forms used by the property theorems -/
+
+theorem cfb8Enc_reg_window (E : Bytes → Bytes) (iv p : Bytes) (hiv : iv ≠ []) :
+    (cfb8Enc E iv p).1 = (iv ++ (cfb8Enc E iv p).2).drop p.length := by
+  induction p generalizing iv with
+  | nil => simp [cfb8Enc_nil]
+  | cons x ps ih =>
+    cases iv with
+    | nil => exact absurd rfl hiv
+    | cons v vs =>
+      have := ih (cfb8Shift (v :: vs) (x ^^^ cfb8Key E (v :: vs))) (by simp [cfb8Shift])
+      simp only [cfb8Enc_cons, this, List.length_cons, List.cons_append, List.drop_succ_cons]
+      simp [cfb8Shift, List.append_assoc]
+
+/-- The flattened wire right after a request and for the whole continuation (see
+`C18Keys.wire_after_request`). -/
+theorem wire_after_request_aux (P : KeyParams) (s : KState) (hs : s.alive = true) (sid : String)
+    (pk tok : Bytes) (post : List Step) :
+    execK P s (.recv (.encRequest sid pk tok) :: post) =
+        execK P (reactK P s (.encRequest sid pk tok)) post ∧
+      (execK P (reactK P s (.encRequest sid pk tok)) post).wire.flatten =
+        (reactK P s (.encRequest sid pk tok)).wire.flatten ++
+          (stackSend (reactK P s (.encRequest sid pk tok)).layers
+            (execK P { reactK P s (.encRequest sid pk tok) with layers := [], wire := [], log := [] }
+              post).wire.flatten).2 ∧
+      (execK P (reactK P s (.encRequest sid pk tok)) post).log =
+        (reactK P s (.encRequest sid pk tok)).log ++
+          (execK P { reactK P s (.encRequest sid pk tok) with layers := [], wire := [], log := [] }
+            post).log.map flagged := by
+  have h0 : execK P s (.recv (.encRequest sid pk tok) :: post) =
+      execK P (reactK P s (.encRequest sid pk tok)) post := by
+    show execWith genUrandom KChan.create P s (_ :: post) = _
+    rw [execWith_cons, stepWith_recv_alive genUrandom KChan.create P s _ hs]
+  have hl : (reactK P s (.encRequest sid pk tok)).layers ≠ [] := by
+    rw [reactK_encRequest]; simp
+  obtain ⟨f1, f2, -⟩ := factor_after genUrandom KChan.create P _ hl post
+  refine ⟨h0, ?_, f2⟩
+  show (execWith genUrandom KChan.create P _ post).wire.flatten = _
+  rw [f1, List.flatten_append]
+  congr 1
+  exact congrArg Prod.snd (updates_stack_flatten _ _)
+
+theorem nDraws_noreq (gen : SecretGen) (mk : Bytes → Except Err KChan) (P : KeyParams) (s : KState)
+    (steps : List Step) (hn : ∀ e ∈ events steps, e.isEncRequest = false) :
+    (execWith gen mk P s steps).nDraws = s.nDraws ∧
+      (execWith gen mk P s steps).layers.isEmpty = s.layers.isEmpty := by
+  induction steps generalizing s with
+  | nil => exact ⟨rfl, rfl⟩
+  | cons a r ih =>
+    rw [execWith_cons]
+    cases a with
+    | flush =>
+      obtain ⟨i1, i2⟩ := ih (stepWith gen mk P s .flush) (by simpa [events] using hn)
+      rw [i1, i2]
+      simp only [stepWith]; split
+      · exact ⟨rfl, rfl⟩
+      · refine ⟨(flushQueue_fields P s).1, ?_⟩
+        have := congrArg List.length (flushQueue_fields P s).2.2.2.2.2.2
+        simp only [List.length_map] at this
+        cases h1 : (s.flushQueue P).layers <;> cases h2 : s.layers <;> simp_all
+    | recv e =>
+      simp only [events, List.mem_cons, forall_eq_or_imp] at hn
+      obtain ⟨i1, i2⟩ := ih (stepWith gen mk P s (.recv e)) hn.2
+      rw [i1, i2]
+      simp only [stepWith]; split
+      · exact ⟨rfl, rfl⟩
+      · cases e with
+        | encRequest sid pk tok => exact absurd hn.1 (by simp [LoginEv.isEncRequest])
+        | setCompression t => exact ⟨rfl, rfl⟩
+        | pluginRequest i c d => exact ⟨rfl, rfl⟩
+        | success => exact ⟨rfl, rfl⟩
+        | disconnect j => exact ⟨rfl, rfl⟩
+
+/-- With at most one reached request the wire is `LoginWire.wireBytes` of the log under AES keyed
+by draw `n0`, register = draw `n0`, and the log has the switch discipline. -/
+theorem one_layer_final (P : KeyParams) (n0 : Nat) (steps : List Step)
+    (h1 : (reqs (processed (events steps))).length ≤ 1) :
+    (execK P (.init n0) steps).wire.flatten =
+        wireBytes P.z (aes128 (P.rng.draw n0)) (P.rng.draw n0) P.ids
+          (execK P (.init n0) steps).log ∧
+      switchOK false (execK P (.init n0) steps).log = true ∧
+      (((execK P (.init n0) steps).keys = [] ∧ hasEncResp (execK P (.init n0) steps).log = false) ∨
+        ((execK P (.init n0) steps).keys = [P.rng.draw n0] ∧
+          hasEncResp (execK P (.init n0) steps).log = true ∧
+          ∃ sid pk tok, LoginEv.encRequest sid pk tok ∈ events steps ∧
+            firstEncResp (execK P (.init n0) steps).log =
+              some (P.base.rsa.enc pk (P.rng.draw n0), P.base.rsa.enc pk tok))) := by
+  have hone := one_execK P n0 steps
+  obtain ⟨hn, -⟩ := keys_execK P n0 steps
+  rcases hone.cases with ⟨_, ⟨hl, hw, hfl⟩, hno⟩ | ⟨_, hl, hw, hsw, hhas, horig⟩ | hC
+  · have hnoenc : ∀ f ∈ (execK P (.init n0) steps).log,
+        f.encrypted = false ∧ isEncResp f.pkt = false := by
+      intro f hf
+      refine ⟨hfl f hf, ?_⟩
+      simp only [hasEncResp, List.any_eq_false] at hno
+      simpa using hno f hf
+    refine ⟨?_, switchOK_const false _ hnoenc, Or.inl ⟨by simp [KState.keys, hl], hno⟩⟩
+    rw [hw]; exact (wireGo_allplain _ _ _ _ _ hfl).symm
+  · exact ⟨hw, hsw, Or.inr ⟨by simp [KState.keys, hl], hhas, horig⟩⟩
+  · omega
+
+/-! ### one and two requests, written out -/
+
+theorem map_frames_flagged (z : ZlibOps) (ids : Ids) (l : List Sent) :
+    (l.map flagged).map (frameOfSent z ids) = l.map (frameOfSent z ids) := by
+  rw [List.map_map]; rfl
+
+theorem flagged_all (l : List Sent) : ∀ f ∈ l.map flagged, f.encrypted = true := by
+  intro f hf
+  obtain ⟨g, _, rfl⟩ := List.mem_map.mp hf
+  rfl
+
+/-- The first request on a bare, alive connection: everything about the state right after it, and
+the continuation factored through the one new layer. -/
+theorem first_request_aux (P : KeyParams) (s : KState) (hs : s.alive = true) (hb : Bare P s)
+    (sid : String) (pk tok : Bytes) (post : List Step) :
+    let d := P.rng.draw s.nDraws
+    let a0 : KState := { reactK P s (.encRequest sid pk tok) with layers := [], wire := [], log := [] }
+    a0.alive = true ∧ Bare P a0 ∧ a0.nDraws = s.nDraws + 1 ∧ a0.threshold = s.threshold ∧
+    (execK P (reactK P s (.encRequest sid pk tok)) post).wire.flatten =
+      (s.log.map (frameOfSent P.z P.ids)).flatten ++
+        frame P.z s.threshold (payloadOf P.ids (replyOf P d pk tok)) ++
+        (cfb8Enc (aes128 d) d (execK P a0 post).wire.flatten).2 ∧
+    (execK P (reactK P s (.encRequest sid pk tok)) post).log =
+      s.log ++ ⟨replyOf P d pk tok, false, s.threshold, true⟩ :: (execK P a0 post).log.map flagged := by
+  intro d a0
+  obtain ⟨hl, hw, hfl⟩ := hb
+  obtain ⟨-, w, l⟩ := wire_after_request_aux P s hs sid pk tok post
+  have hr := reactK_encRequest P s sid pk tok
+  have ha0 : a0 = { reactK P s (.encRequest sid pk tok) with layers := [], wire := [], log := [] } := rfl
+  refine ⟨?_, bare_start P _, ?_, ?_, ?_, ?_⟩
+  · rw [ha0, hr]; exact hs
+  · rw [ha0, hr]
+  · rw [ha0, hr]
+  · rw [w]
+    simp only [a0, d, hr, hl, updates_stackSend_nil, List.flatten_append, hw, sendsFlatten,
+      stackSend_single]
+  · rw [l]
+    simp only [a0, d, hr, hl, List.isEmpty_nil, Bool.not_true, List.append_assoc,
+      List.singleton_append]
+
+theorem bare_init (P : KeyParams) (n : Nat) : Bare P (.init n) :=
+  ⟨rfl, rfl, by intro f hf; cases hf⟩
+
+/-- One request on a bare connection and no further one: the explicit wire. -/
+theorem single_layer_aux (P : KeyParams) (s : KState) (hs : s.alive = true) (hb : Bare P s)
+    (sid : String) (pk tok : Bytes) (post : List Step)
+    (hpost : ∀ e ∈ events post, e.isEncRequest = false) :
+    ∃ later, (execK P s (.recv (.encRequest sid pk tok) :: post)).log =
+        s.log ++ ⟨replyOf P (P.rng.draw s.nDraws) pk tok, false, s.threshold, true⟩ :: later ∧
+      (∀ f ∈ later, f.encrypted = true) ∧
+      (execK P s (.recv (.encRequest sid pk tok) :: post)).wire.flatten =
+        (s.log.map (frameOfSent P.z P.ids)).flatten ++
+          frame P.z s.threshold (payloadOf P.ids (replyOf P (P.rng.draw s.nDraws) pk tok)) ++
+          (cfb8Enc (aes128 (P.rng.draw s.nDraws)) (P.rng.draw s.nDraws)
+            (later.map (frameOfSent P.z P.ids)).flatten).2 := by
+  obtain ⟨h0, -, -⟩ := wire_after_request_aux P s hs sid pk tok post
+  obtain ⟨-, hba, -, -, W, L⟩ := first_request_aux P s hs hb sid pk tok post
+  have hin := Bare.exec genUrandom KChan.create hba post hpost
+  refine ⟨_, by rw [h0]; exact L, flagged_all _, ?_⟩
+  rw [h0, W, map_frames_flagged, hin.2.1]
+
+/-- Two requests in one login (nothing terminal before the second, no third): the explicit wire —
+the first cipher encrypts, as one stream, the frames written between the requests, the SECOND reply
+and the second cipher's output. -/
+theorem two_requests_aux (P : KeyParams) (n0 : Nat) (pre mid post : List Step)
+    (sid1 : String) (pk1 tok1 : Bytes) (sid2 : String) (pk2 tok2 : Bytes)
+    (hpre : ∀ e ∈ events pre, e.isTerminal = false ∧ e.isEncRequest = false)
+    (hmid : ∀ e ∈ events mid, e.isTerminal = false ∧ e.isEncRequest = false)
+    (hpost : ∀ e ∈ events post, e.isEncRequest = false) :
+    ∃ (thr2 : Option Int) (L1 L2 : List Sent),
+      (execK P (.init n0) (pre ++ .recv (.encRequest sid1 pk1 tok1) ::
+          (mid ++ .recv (.encRequest sid2 pk2 tok2) :: post))).log =
+        (execK P (.init n0) pre).log ++
+          ⟨replyOf P (P.rng.draw n0) pk1 tok1, false, (execK P (.init n0) pre).threshold, true⟩ ::
+          (L1 ++ ⟨replyOf P (P.rng.draw (n0 + 1)) pk2 tok2, true, thr2, true⟩ :: L2) ∧
+      (∀ f ∈ L1, f.encrypted = true) ∧ (∀ f ∈ L2, f.encrypted = true) ∧
+      (execK P (.init n0) (pre ++ .recv (.encRequest sid1 pk1 tok1) ::
+          (mid ++ .recv (.encRequest sid2 pk2 tok2) :: post))).wire.flatten =
+        ((execK P (.init n0) pre).log.map (frameOfSent P.z P.ids)).flatten ++
+          frame P.z (execK P (.init n0) pre).threshold
+            (payloadOf P.ids (replyOf P (P.rng.draw n0) pk1 tok1)) ++
+          (cfb8Enc (aes128 (P.rng.draw n0)) (P.rng.draw n0)
+            ((L1.map (frameOfSent P.z P.ids)).flatten ++
+              frame P.z thr2 (payloadOf P.ids (replyOf P (P.rng.draw (n0 + 1)) pk2 tok2)) ++
+              (cfb8Enc (aes128 (P.rng.draw (n0 + 1))) (P.rng.draw (n0 + 1))
+                (L2.map (frameOfSent P.z P.ids)).flatten).2)).2 := by
+  have hb0 : Bare P (execK P (.init n0) pre) :=
+    Bare.exec genUrandom KChan.create (bare_init P n0) pre fun e he => (hpre e he).2
+  have al0 : (execK P (.init n0) pre).alive = true :=
+    execK_alive P _ pre (init_alive n0) fun e he => (hpre e he).1
+  have n0eq : (execK P (.init n0) pre).nDraws = n0 :=
+    (nDraws_noreq genUrandom KChan.create P _ pre fun e he => (hpre e he).2).1
+  rw [execK_mid P _ pre _ _ (init_alive n0) fun e he => (hpre e he).1]
+  obtain ⟨ala, hba, nda, -, W, L⟩ := first_request_aux P _ al0 hb0 sid1 pk1 tok1
+    (mid ++ .recv (.encRequest sid2 pk2 tok2) :: post)
+  rw [n0eq] at nda W L
+  generalize ha0 : ({ reactK P (execK P (.init n0) pre) (.encRequest sid1 pk1 tok1) with
+    layers := [], wire := [], log := [] } : KState) = a0 at ala hba nda W L
+  rw [execK_mid P a0 mid post _ ala fun e he => (hmid e he).1] at W L
+  have hbm : Bare P (execK P a0 mid) :=
+    Bare.exec genUrandom KChan.create hba mid fun e he => (hmid e he).2
+  have alm : (execK P a0 mid).alive = true :=
+    execK_alive P _ mid ala fun e he => (hmid e he).1
+  have ndm : (execK P a0 mid).nDraws = n0 + 1 := by
+    rw [(nDraws_noreq genUrandom KChan.create P a0 mid fun e he => (hmid e he).2).1, nda]
+  obtain ⟨-, hbb, -, -, W2, L2⟩ := first_request_aux P _ alm hbm sid2 pk2 tok2 post
+  rw [ndm] at W2 L2
+  generalize hb0' : ({ reactK P (execK P a0 mid) (.encRequest sid2 pk2 tok2) with
+    layers := [], wire := [], log := [] } : KState) = b0 at hbb W2 L2
+  have hin := Bare.exec genUrandom KChan.create hbb post hpost
+  refine ⟨(execK P a0 mid).threshold, (execK P a0 mid).log.map flagged,
+    ((execK P b0 post).log.map flagged).map flagged, ?_, flagged_all _, flagged_all _, ?_⟩
+  · rw [L, L2]
+    simp only [List.map_append, List.map_cons, flagged]
+  · rw [W, W2, map_frames_flagged, map_frames_flagged, map_frames_flagged, hin.2.1]
+
+/-- The reactor as it is never ends with the `ValueError` of `create_AES_cipher`. -/
+theorem err_not_cipher (P : KeyParams) (s : KState) (steps : List Step)
+    (h : ∀ e, s.err ≠ some (.cipher e)) : ∀ e, (execK P s steps).err ≠ some (.cipher e) := by
+  induction steps generalizing s with
+  | nil => exact h
+  | cons a r ih =>
+    show ∀ e, (execWith genUrandom KChan.create P s (a :: r)).err ≠ _
+    rw [execWith_cons]
+    apply ih
+    cases a with
+    | flush =>
+      simp only [stepWith]; split
+      · exact h
+      · rw [(flushQueue_fields P s).2.2.2.2.2.1]; exact h
+    | recv e =>
+      simp only [stepWith]; split
+      · exact h
+      · cases e with
+        | encRequest sid pk tok =>
+          show ∀ e, (reactK P s (.encRequest sid pk tok)).err ≠ _
+          rw [reactK_encRequest]; exact h
+        | setCompression t => exact h
+        | pluginRequest i c d => exact h
+        | success => exact h
+        | disconnect j => intro e he; cases he
+
+theorem keys_at (f : Nat → Bytes) (n0 k : Nat) (l later : List Bytes)
+    (h : l = (List.range' n0 (k + 1)).map f ++ later) : l[k]? = some (f (n0 + k)) := by
+  rw [h, ← range'_map_snoc, List.append_assoc]
+  rw [List.getElem?_append_right (by simp)]
+  simp
+
+theorem nodup_draws (f : Nat → Bytes) (n0 k : Nat)
+    (hinj : ∀ i j, i < k → j < k → f (n0 + i) = f (n0 + j) → i = j) :
+    ((List.range' n0 k).map f).Nodup := by
+  rw [List.Nodup, List.pairwise_map]
+  have hp : (List.range' n0 k).Pairwise (· < ·) := List.pairwise_lt_range'
+  refine List.Pairwise.imp_of_mem ?_ hp
+  intro a b ha hb hab heq
+  simp only [List.mem_range'_1] at ha hb
+  have := hinj (a - n0) (b - n0) (by omega) (by omega)
+    (by rw [show n0 + (a - n0) = a by omega, show n0 + (b - n0) = b by omega]; exact heq)
+  omega
+
+/-! ### specifications as predicates on the two parameters of `reactWith` (for the refutations) -/
+
+/-- What `C18Keys.pycraft_channel` says, as a predicate on the cipher constructor and the run
+function of the wrappers. -/
+def ChannelSpec (mk : Bytes → Except Err KChan) (run : KChan → List Op → List Bytes) : Prop :=
+  ∀ secret c ops, mk secret = .ok c →
+    (outsOf Op.isSend ops (run c ops)).flatten =
+        (cfb8Enc (aes128 secret) secret (ops.flatMap Op.sent)).2 ∧
+      (outsOf Op.isRecv ops (run c ops)).flatten =
+        (cfb8Dec (aes128 secret) secret (ops.flatMap Op.rcvd)).2
+
+/-- What `C18Keys.logins_use_disjoint_draws` says, as a predicate on the secret generator. -/
+def FreshSpec (gen : SecretGen) : Prop :=
+  ∀ (P : KeyParams) (n : Nat) (runs : List (Nat × List Step)),
+    (loginsWith gen KChan.create P n runs).flatMap KState.keys =
+      (drawIdxs n (runs.map fun r => (r.1, (reqs (processed (events r.2))).length))).map
+        P.rng.draw
+
+/-! ### concrete parameters for examples and refutations -/
+
+/-- An oracle whose `n`-th draw is sixteen times the byte `n + 1`. -/
+def demoRng : Urandom :=
+  { draw := fun n => List.replicate 16 (UInt8.ofNat (n + 1)), len16 := fun _ => by simp }
+
+/-- `Login.demoParams` (RSA = "prefix the key's first byte"), store-only zlib, ids 1/2. -/
+def demoKP : KeyParams :=
+  { base := demoParams, rng := demoRng, z := Zlib.ident.toZlibOps, ids := demoIds }
+
+/-- One login: a request under key `[7, 8]` with token `[9]`, then a plugin request, then
+success. -/
+def demoLogin : List Step :=
+  schedule 1 [.encRequest "srv" [7, 8] [9], .pluginRequest 5 "ch" [1], .success]
+
+/-- Two requests in one login, a plugin request after each. -/
+def demoTwice : List Step :=
+  schedule 1 [.encRequest "srv" [7, 8] [9], .pluginRequest 5 "ch" [1],
+    .encRequest "-" [3, 4] [6], .pluginRequest 6 "ch" [], .success]
+
+/-! ### the generated table (`Generated/C18Keys.lean`) in the model's vocabulary -/
+
+def opOf (c : Nat × Bytes × Bytes) : Op :=
+  if c.1 = 0 then .send c.2.1 else if c.1 = 1 then .recv c.2.1 else .read c.2.1
+
+/-- The draw index of a row that made exactly one call. -/
+def rowIdx (draws : List (Nat × Nat)) : Nat := (draws.headD (0, 0)).1
 
 end PyCraft.Keys
